@@ -44,7 +44,10 @@ def cache_traces(evs):
     byp = collections.OrderedDict()
     for e in evs:
         if e.get('ev') in ('rule_get', 'rule_insert'):
-            byp.setdefault(e['pid'], []).append(dict(ev=e['ev'], key=json.dumps(e['key']), hit=bool(e.get('hit', False)), thread=e.get('thread', '')))
+            k = e['key']
+            byp.setdefault(e['pid'], []).append(dict(ev=e['ev'], key=[repr(float(k[0])), int(k[1]), int(k[2])], parity=int(k[1]), terms=int(k[2]),
+                                                     hit=bool(e.get('hit', False)), thread=e.get('thread', ''),
+                                                     m=str(e.get('m', '')), n=int(e.get('n', 0)), o=int(e.get('o', 0))))
     return [dict(ev=v) for v in byp.values() if v]
 
 
@@ -79,21 +82,31 @@ TAY_CFG = "CONSTANTS\n  MaxIters = {30}\n  NumExtraps = {3}\nSPECIFICATION Trace
 
 
 def check(kind, rep):
-    """kind in {'cache', 'dea', 'taylor'}; returns (TLCResult list, number of traces, events)"""
+    """kind in {'cache', 'dea', 'taylor'}; returns (TLCResult list, stats dict)"""
+    import copy
     evs, tail = record()
     if not evs:
         raise vlib.MachineryError('the repository test suite produced no hook events (%s)' % tail)
-    if kind == 'cache':
-        tr = cache_traces(evs)
-        res, acc = _validate('Trace_Cache', CACHE_CFG, tr, 'Suite_Cache')
-    elif kind == 'dea':
-        tr = dea_traces(evs)
-        res, acc = _validate('Trace_Dea', DEA_CFG, tr, 'Suite_Dea') if tr else (None, set())
-    else:
-        tr = taylor_traces(evs)
-        res, acc = _validate('Trace_Taylor', TAY_CFG, tr, 'Suite_Taylor') if tr else (None, set())
-    for j, t in enumerate(tr, 1):
-        if j not in acc:
-            rep.violation('suite-trace:' + kind, dict(trace={k: (v[:30] if isinstance(v, list) else v) for k, v in t.items()}),
-                          'a %s trace recorded while running the repository\'s own tests is not a behaviour of the specification' % kind)
-    return ([res] if res else []), len(tr), len(evs), tail
+    module, cfg, tr = dict(cache=('Trace_Cache', CACHE_CFG, cache_traces), dea=('Trace_Dea', DEA_CFG, dea_traces), taylor=('Trace_Taylor', TAY_CFG, taylor_traces))[kind]
+    tr = tr(evs)
+    out = []
+    if tr:
+        res, acc = _validate(module, cfg, tr, 'Suite_' + kind)
+        out.append(res)
+        for j, t in enumerate(tr, 1):
+            if j not in acc:
+                rep.violation('suite-trace:' + kind, dict(trace={k: (v[:30] if isinstance(v, list) else v) for k, v in t.items()}, events=len(t.get('ev', []))),
+                              'a %s trace recorded while running the repository\'s own tests (hooks on) is not a behaviour of spec/%s.tla' % (kind, module))
+        # negative control: one corrupted field must be rejected
+        bad = copy.deepcopy(tr[:1])
+        ev = bad[0]['ev']
+        if kind == 'cache':
+            ev[len(ev) // 2]['terms'] += 1
+        elif kind == 'taylor':
+            ev[len(ev) // 2]['numchg'] += 1
+        else:
+            ev[-1]['n_after'] += 1
+        _, acc2 = _validate(module, cfg, bad, 'Suite_' + kind + '_neg')
+        if acc2:
+            raise vlib.MachineryError('trace validation (%s) accepted a corrupted suite trace' % kind)
+    return out, dict(suite_traces=len(tr), suite_events=sum(len(t.get('ev', [])) for t in tr), suite_result=tail)
